@@ -923,7 +923,7 @@ def bounded(rep: Report, tier, seed):
                            inputs={"A": A4, "tol": tol, "block": blk, "seed": sd})
     b.samples.append({"shape": [6, 3], "variant": "column", "solver": "qr", "tol": 1e-6, "block": 2})
     b.done()
-    b2 = rep.add_bounded(Bounded("hybrid", "shapes (3,2) (4,4) (6,3) (8,7 thorough), p in 2..8 (quick: 2,3,4,8), T in {1,3,5}, r in {1,2,n}, tol, qr/spd, seeds; hyperpower identity on random X",
+    b2 = rep.add_bounded(Bounded("hybrid", "shapes (3,2) (4,4) (6,3) (8,7 thorough), p in 2..8 (quick: 2,3,4,8), T in {1,3,5,10} (10 = the proxy cadence), r in {1,2,n}, tol, qr/spd, seeds; hyperpower identity on random X",
                                  "same truthfulness / soundness clauses; I - X'A = (I - XA)^p"))
     hshapes = [(3, 2), (4, 4), (6, 3)] if quick else [(1, 1), (3, 2), (4, 4), (6, 3), (8, 7)]
     ps = (2, 3, 4, 8) if quick else tuple(range(2, 9))
@@ -933,8 +933,8 @@ def bounded(rep: Report, tier, seed):
             X4 = rng.uniform(0.1, 0.6) * np.transpose(A4, (1, 0, 2)) * np.array([1, -1, -1, -1]) + 0.05 * rng.standard_normal((n, m, 4))
             for p in ps:
                 b2.case(f"{P}.bounded.hyperpower", (m, n, cond, p), lambda A4=A4, X4=X4, p=p: check_hyperpower(A4, X4, p), f"hyperpower p={p} on {m}x{n}", inputs={"A": A4, "X": X4, "p": p})
-                for T, r, tol, sd in itertools.product((1, 3, 5), sorted({1, 2, n}), tols, seeds):
-                    if quick and not ((T, r) in ((3, min(2, n)), (5, n)) and sd == seed and tol == tols[-1]):
+                for T, r, tol, sd in itertools.product((1, 3, 5, 10), sorted({1, 2, n}), tols, seeds):
+                    if quick and not ((T, r) in ((3, min(2, n)), (5, n), (10, min(2, n))) and sd == seed and tol == tols[-1]):
                         continue
                     for solver in ("qr", "spd"):
                         if solver == "spd" and (quick or cond != conds[0]):
@@ -958,8 +958,20 @@ def bounded(rep: Report, tier, seed):
                         continue
                     b3.case(f"{P}.bounded.cgne", (m, n, cond, tol, budget), lambda A4=A4, tol=tol, budget=budget, cond=cond: check_cgne(A4, tol, budget, must_converge=(budget == 500 and cond <= 100.0)),
                             f"CGNE {m}x{n} cond {cond} tol {tol} budget {budget}", facts={"m": m, "n": n, "cond": cond, "tol": tol, "budget": budget}, inputs={"A": A4, "tol": tol, "budget": budget})
+                if cond <= 100.0 and tol in (1e-6, 1e-8) and n >= 2:
+                    # the solver is scale free on paper: down- / up-scaled inputs must converge within the budget too
+                    for c_ in (1e-4, 1e3):
+                        b3.case(f"{P}.bounded.cgne.scaled", (m, n, cond, tol, c_), lambda A4=A4, tol=tol, c_=c_: check_cgne(c_ * A4, tol, 500, must_converge=True),
+                                f"CGNE {m}x{n} cond {cond} scaled by {c_:g} tol {tol}", facts={"m": m, "n": n, "cond": cond, "tol": tol, "scale": c_}, inputs={"A": c_ * A4, "tol": tol})
                 if n >= 2:
                     b3.case(f"{P}.bounded.cgne.preconditioned", (m, n, cond, tol), lambda A4=A4, tol=tol: check_cgne(A4, tol, 300, False, prec_rank=2, seed=seed), f"CGNE rank-2 preconditioner {m}x{n} cond {cond} tol {tol}", inputs={"A": A4, "tol": tol})
+    # larger n: conjugate directions matter (CG no longer terminates by dimension count); small-norm and tight-tolerance inputs
+    big = [(40, 30, 100.0, 1e-4, 1e-6)] if quick else [(40, 30, 100.0, 1e-4, 1e-6), (30, 24, 100.0, 1e-4, 1e-6), (40, 30, 1e3, 1.0, 1e-8), (40, 30, 3e2, 1e-3, 1e-8), (36, 30, 100.0, 1e3, 1e-6)]
+    for (m, n, cond, c_, tol) in big:
+        for rep_i in range(3):
+            A4 = c_ * mk_matrix(np.random.default_rng(1000 * seed + 17 * rep_i + m), m, n, cond)
+            b3.case(f"{P}.bounded.cgne.large", (m, n, cond, c_, tol, rep_i), lambda A4=A4, tol=tol: check_cgne(A4, tol, 500, must_converge=True),
+                    f"CGNE {m}x{n} cond {cond} scale {c_:g} tol {tol}: must converge within the default budget", facts={"m": m, "n": n, "cond": cond, "scale": c_, "tol": tol}, inputs={"A": A4, "tol": tol})
     b3.samples.append({"shape": [6, 3], "cond": 100.0, "tol": 1e-8, "budget": 500})
     b3.done()
 
